@@ -114,6 +114,20 @@ def gen_case(rng):
             m = [q(F(rng.choice([0, 3, 4, -3, -4]))) for _ in range(nd)]
         return [tok[0], q(F(rng.randint(-6, 6), rng.choice([1, 2]))), m]
 
+    # `far`: a float32 archive whose measures sit around +-2^20 (one ulp = 1/8) while the candidates are submitted as
+    # float64 values on a 1/16 grid: the archive judges and stores the value *rounded to its dtype* (batch and single
+    # alike), so an unrounded comparison is off by up to 1/16 against thresholds of 7/10 .. 5
+    far = rng.random() < 0.18
+    if far:
+        case["dtype"] = "f32"
+        case["far"] = True
+        base_row = row
+
+        def row():      # noqa: F811
+            t, o, m = base_row()
+            sh = [F(2**20), F(-2**20), F(2**19)]
+            return [t, o, [q(F(x) + sh[i] + F(rng.randrange(16), 16)) for i, x in enumerate(m)]]
+
     ops = []
     for _ in range(rng.randint(3, 12)):
         r = rng.random()
